@@ -75,10 +75,10 @@ CHECK = {
     "trusted_base": [
         "Coq 8.16.1 kernel; axioms: none",
         "Spec/ZfRenderS.v (the Coq renderer: choices, legality file_ok, render, number_lines) is the specification of the theorems; it covers every "
-        "RR type the parser has a syntax for (incl. WKS), $ORIGIN/$TTL/$INCLUDE lines, IPv6 text in the eight-group form only "
-        "(no '::', no embedded IPv4), no raw CR in unquoted tokens; the WKS bit order and the set of mnemonics follow the implementation (docs/C23.md)",
+        "RR type the parser has a syntax for (incl. WKS), $ORIGIN/$TTL/$INCLUDE lines, IPv6 text with or without '::' "
+        "(no embedded IPv4), no raw CR in unquoted tokens; the WKS bit order and the set of mnemonics follow the implementation (docs/C23.md)",
         "the Python renderer checks/zfgen.py is the independent specification of the differential run (it never reads the parser) and covers "
-        "the presentations the Coq renderer leaves out ('::' and embedded-IPv4 forms of IPv6 text)",
+        "the presentations the Coq renderer leaves out (the embedded-IPv4 form of IPv6 text)",
         "the model of the parser (Model/Zf*.v, shared with C24) and its correspondence to the code (tested, not proved)",
         "extraction: ExtrOcamlBasic only; OCaml 4.13.1 ocamlopt",
     ],
@@ -94,7 +94,7 @@ MANIFEST = {
                    "token-level (escapes, strings, names, integers, class/type, IPv4, IPv6), field-navigation, RDATA, record-line theorems. The model is tied to "
                    "the code by a differential run in which an independent Python renderer makes random presentation choices and the real parser and the "
                    "extracted model must both return exactly the generating records with their line numbers."),
-    "level_note": ("The Coq renderer does not cover: the '::' / embedded-IPv4 forms of IPv6 text, raw CR in unquoted "
+    "level_note": ("The Coq renderer does not cover: the embedded-IPv4 form of IPv6 text, raw CR in unquoted "
                    "tokens (the Python renderer of the differential run does). Trusted: the model/code correspondence (tested), Coq kernel, extraction."),
     "technique": "machine-checked proof in Coq (parse-of-render, all stages) + model/implementation/specification correspondence check on rendered files",
     "design_ref": "DESIGN.md §4 C23",
